@@ -239,8 +239,17 @@ fn scen(spec: RunSpec) -> ScenFut {
         }
         // a write whose client went away may still be running in the server (that is the point of detaching it);
         // the verdict is taken at quiescence: no time passes while a request is parked, then 30 s go by
-        sim::set_cfg(|c| c.adv_pct = 0);
-        tokio::time::sleep(Duration::from_secs(30)).await;
+        // (runs without disconnects keep the sharper ending: shutdown is requested at a seeded point right after
+        // the last write returned - possibly while a timer flush is parked at the store - and must still flush everything)
+        if with_cancel {
+            sim::set_cfg(|c| c.adv_pct = 0);
+            tokio::time::sleep(Duration::from_secs(30)).await;
+        } else {
+            for _ in 0..sim::w(6) {
+                sim::yield_point(0, "before shutdown").await;
+            }
+            sim::probe("shutdown-requested-right-after-the-last-write");
+        }
         tok.cancel();
         let _ = timer.await;
         tokio::time::sleep(Duration::from_secs(30)).await;
